@@ -39,7 +39,7 @@ def rand_tree(rnd, n):
 
 
 def make_case(cid, rnd, q):
-    n = rnd.choice([1, 2, 3, 4, 5, 6, 8, rnd.randint(1, 16)])
+    n = rnd.choice([1, 2, 3, 4, 5, 6, 8, rnd.randint(1, 16), rnd.randint(1, 24), 24])
     chain = rnd.random() < 0.35
     if chain:
         parent = [[-1, -1]] + [[i - 1, 1] for i in range(1, n)]
